@@ -18,6 +18,7 @@ func (p *parser) parseFile() {
 
 	// X64 强制采用 intel 语法
 	if p.cpu == abi.X64Unix || p.cpu == abi.X64Windows {
+	Loop:
 		for {
 			if p.err != nil {
 				return
@@ -32,12 +33,20 @@ func (p *parser) parseFile() {
 				p.prog.Comments = append(p.prog.Comments, commentObj)
 				p.prog.Objects = append(p.prog.Objects, commentObj)
 
+			case token.SEMICOLON:
+				p.consumeSemicolonList()
+
 			case token.GAS_X64_INTEL_SYNTAX:
 				p.prog.IntelSyntax = &ast.GasIntelSyntaxNoprefix{
 					Pos: p.pos,
 				}
 				p.acceptToken(token.GAS_X64_INTEL_SYNTAX)
 				p.acceptToken(token.GAS_X64_NOPREFIX)
+				break Loop
+
+			default:
+				// 其他 token 不再属于文件头, 避免死循环
+				break Loop
 			}
 		}
 		if p.prog.IntelSyntax == nil {
